@@ -83,6 +83,10 @@ def run_decoder(ctx, x, compatible=False, attribute=False):
             # shows again on the string
             s = x.as_plain_str()
             return run_decoder(ctx, s, compatible=compatible, attribute=attribute)
+        if symstr.proxy_fault(ex) and not isinstance(x, str):
+            # the proxy, not the decoder, raised (a str operation it does not imitate): pin the input and run again
+            symstr.PROXY_FALLBACKS[0] += 1
+            return run_decoder(ctx, symstr.pin(x), compatible=compatible, attribute=attribute)
         return ("exc", ex)
 
 
